@@ -32,7 +32,7 @@ def judge(chk, trace, mm):
     for m in mm:
         d = m[3]
         chk.classify(f"border:{'color' if not d['rows'] else 'pixels'}", f"border frame: writes {d['writes']} rows {sorted(d['rows'])[:8]} "
-                     f"reported {d['reported']} want {d['want']}", run_of(trace, m[1]), extra=m)
+                     f"reported {d['reported']} want {d['want']}", lambda m=m, trace=trace: run_of(trace, m[1]), extra=m)
 
 
 def run(tier, seed):
